@@ -176,29 +176,25 @@ func ruleErr18(c *Ctx) {
 	for f := range sources {
 		c.Anchors[c.P.Name(f)] = true
 	}
-	seq := e19SeqKey{}
-	// fromRuntime: the statement-list value comes from a run-time source (through helper parameters)
-	var fromRuntime func(v ssa.Value, d int) *ssa.Function
-	fromRuntime = func(v ssa.Value, d int) *ssa.Function {
+	// fromRuntime: the run-time producers a statement-list value comes from (through helper parameters)
+	var fromRuntime func(v ssa.Value, d int, out map[*ssa.Function]bool)
+	fromRuntime = func(v ssa.Value, d int, out map[*ssa.Function]bool) {
 		for _, o := range core.Origins(v, true) {
 			if call, _, ok := core.ExtractOf(o); ok {
 				if f := call.Common().StaticCallee(); f != nil && (sources[f] || (c.P.IsControl(f) && f.Name() == "ctlParseAtRunTime")) {
-					return f
+					out[f] = true
 				}
 			}
 			if p, idx := e19ParamIndex(o); p != nil && d < 2 && p.Parent().Parent() == nil && !ast.IsExported(p.Parent().Name()) {
-				for _, ed := range c.P.RealCallers(p.Parent()) {
+				for _, ed := range c.P.Callers(p.Parent()) {
 					site, ok := ed.Site.(*ssa.Call)
 					if !ok || site.Common().StaticCallee() != p.Parent() || idx >= len(site.Common().Args) {
 						continue
 					}
-					if f := fromRuntime(site.Common().Args[idx], d+1); f != nil {
-						return f
-					}
+					fromRuntime(site.Common().Args[idx], d+1, out)
 				}
 			}
 		}
-		return nil
 	}
 	for _, fn := range c.P.FuncsIn(true, "lib/query") {
 		if c.P.IsControl(fn) && !containsAny(fn.Name(), "Sourced") {
@@ -214,13 +210,18 @@ func ruleErr18(c *Ctx) {
 				continue
 			}
 			args := call.Common().Args
-			src := fromRuntime(args[len(args)-1], 0)
-			if src == nil {
+			producers := map[*ssa.Function]bool{}
+			fromRuntime(args[len(args)-1], 0, producers)
+			if len(producers) == 0 {
 				continue
 			}
+			var srcs []*ssa.Function
+			for f := range producers {
+				srcs = append(srcs, f)
+			}
+			sortFuncs(c.P, srcs)
 			c.Sites++
 			c.Touch(fn)
-			key := seq.key(c, e19KeyFn(c, fn), "statements of "+e19ShortFn(c.P.Name(src))+" run by "+callee.Name())
 			// guard: a dominating comparison of an int field of Processor/Transaction that this function also stores
 			guard := ""
 			for _, f := range core.FactsAt(call.Block()) {
@@ -253,10 +254,19 @@ func ruleErr18(c *Ctx) {
 					}
 				}
 			}
-			if guard != "" {
-				c.Ok(key, c.Pos(call), "dominated by a test of the nesting counter "+guard+", which this function maintains")
-			} else {
-				c.Bad(key, c.Pos(call), fmt.Sprintf("the statements returned by %s at run time are executed without a nesting-depth guard: a script that SOURCEs itself (or EXECUTEs its own text) recurses through ExecuteStatement → execute until the Go stack overflows — `fatal error: stack overflow` cannot be recovered, the process dies with exit status 2 and held locks/temp files stay", c.P.Name(src)))
+			for _, src := range srcs {
+				// the producer/consumer pair identifies the defect; the hosting function is
+				// named in the position and the message only, so moving the arm into a helper
+				// does not rename a recorded finding
+				key := "statements of " + e19ShortFn(c.P.Name(src)) + " run by (*Processor)." + callee.Name()
+				if c.P.IsControl(fn) {
+					key = c.KeyAt(fn, key)
+				}
+				if guard != "" {
+					c.Ok(key, c.Pos(call), "in "+c.P.Name(fn)+": dominated by a test of the nesting counter "+guard+", which this function maintains")
+				} else {
+					c.Bad(key, c.Pos(call), fmt.Sprintf("in %s: the statements returned by %s at run time are executed without a nesting-depth guard: a script that SOURCEs itself (or EXECUTEs its own text) recurses through ExecuteStatement → execute until the Go stack overflows — `fatal error: stack overflow` cannot be recovered, the process dies with exit status 2 and held locks/temp files stay", c.P.Name(fn), c.P.Name(src)))
+				}
 			}
 		}
 	}
